@@ -116,7 +116,16 @@ def main(tier):
     if r3.rc != 0 or "Error:" in r3.out:
         raise V.ToolError("MC_Imports failed:\n" + V.tail(r3.out, 40))
     rep.notes.append("MC_Imports: %d instances of the import forms: AliasDenotesSymbol, FreshRenameIsCaptureFree hold" % r3.distinct)
-    asts, masts, iasts = D.tlc_cases(r), D.tlc_cases(r2), D.tlc_cases(r3)
+    mf = os.path.join(SPEC, "MC_Forms.tla")
+    r4 = V.tlc(mf, cfg=os.path.join(SPEC, "MC_Forms.cfg"), workers=4, timeout=1200, tag="C15-mf")
+    rep.add_tlc(r4)
+    if r4.invariant_violated:
+        rep.violations.append({"why": "design level: MC_Forms invariant violated", "replay": {"tlc_output": V.tail(r4.out, 60)}, "id": "MC_Forms"})
+        return rep.finish()
+    if r4.rc != 0 or "Error:" in r4.out:
+        raise V.ToolError("MC_Forms failed:\n" + V.tail(r4.out, 40))
+    rep.notes.append("MC_Forms: %d programs (expression with one symbol twice, .var assigned twice, defined(), .loop): invariants hold" % r4.distinct)
+    asts, masts, iasts = D.tlc_cases(r), D.tlc_cases(r2), D.tlc_cases(r3) + D.tlc_cases(r4)
     rnd = V.rng("C15")
     wd = V.fresh_dir("C15")
     rnd.shuffle(asts)
@@ -126,7 +135,7 @@ def main(tier):
     asts = asts + masts + iasts
     with ThreadPoolExecutor(max_workers=6) as ex:
         projs = [p for p in ex.map(lambda i: D.project_from_ast(asts[i], mos, os.path.join(wd, "t%04d" % i), 1000 + i), range(len(asts))) if p["ok"]]
-    gen, tries = D.make_projects(rnd, 70 if tier == "quick" else 600, mos, wd, "g")
+    gen, tries = D.make_projects(rnd, 70 if tier == "quick" else 400, mos, wd, "g")
     projs += gen
     work = []
     for p in projs:
@@ -153,7 +162,8 @@ def main(tier):
     rep.add_stats(st)
 
     bad = {v["id"] for v in verdicts}
-    clean = [x for x in recs if x["id"] not in bad and x["offered"] and x["new"].startswith("zz") and x["backDone"] and len(x["edits"]) >= 2]
+    plain = lambda x: not any(w in t["s"] for t in x["origText"] for w in (".var", "defined(", ".loop", ".file", " as ", "super", ".macro"))
+    clean = [x for x in recs if x["id"] not in bad and x["offered"] and x["new"].startswith("zz") and x["backDone"] and len(x["edits"]) >= 2 and plain(x)]
     if not clean and not verdicts:
         raise V.ToolError("no accepted record for the judge self-test")
     muts = []
@@ -168,7 +178,7 @@ def main(tier):
             m["backText"][0]["s"] += " "
         muts.append(m)
     mv = V.judge(jm, muts, cfg=jc, tag="C15-selftest")[0] if muts else []
-    caught = {v["id"] for v in mv if v["verdict"] == "violation"}
+    caught = {v["id"] for v in mv if v["verdict"] == "violation" or (v["verdict"] == "deviation" and v.get("dev") not in rep.open)}
     if caught != {m["id"] for m in muts}:
         raise V.ToolError("judge self-test: corrupted records not rejected: %s" % sorted({m["id"] for m in muts} - caught))
     if muts:
